@@ -244,6 +244,11 @@ add("s_pick_next_two", SIM, SK, ["C14", "C15", "C19"], cap_s=1200, mem_gb=16, gr
     bounds="two queued NormalSent packets (one per side) at any two instants up to 1000 s after now, no machines, no blocking")
 
 
+add("s_stack_padding_replace_flags", SIM, SK, ["C15", "C16"], tier="thorough", cap_s=900, mem_gb=24, group="s_stack_pad_flags", owner="C19",
+    encodes=["network::sim_network_stack (PaddingSent, bypass + replace path)", "SimQueue::peek_blocking / pop_blocking",
+             "delay::agg_delay_on_padding_bypass_replace", "NetworkBottleneck::push_aggregate_delay"],
+    bounds="concrete instants (packet queued at t0, padding at t0 + 1 s, blocking until t0 + 5 s); symbolic: whether the blocking "
+           "allows bypass and whether the waiting normal packet may already bypass")
 add("s_no_normal_packets", SIM, SK, ["C15"], cap_s=600, mem_gb=16, group="s_no_normal_packets", owner="C19",
     encodes=["SimQueue::no_normal_packets", "EventQueue::no_normal_packets", "EventQueue::push"],
     bounds="one pending event of any queueable kind (normal/padding, bypass flag any) on either side")
